@@ -105,6 +105,19 @@ def _border_case(desc, ctx):
             ctx.violation("cycle", "extract_border_cycle", mech, "border cycle is not a closed walk along border edges visiting every vertex of the loop once",
                           start=s, got=vb[:30], loop=want[:30], chords=chords)
             break
+    # default starting point: some complete border loop
+    if loops:
+        ok, m0 = ctx.call("build", build.surface, V, F, monitor="cycle")
+        ok, res = ctx.call("extract_border_cycle_default_start", M.processing.extract_border_cycle, m0, monitor="cycle", abort=False)
+        if ok:
+            ctx.obs("cycle", "default_start")
+            try:
+                vb = [int(x) for x in res[0]]
+                good = sorted(vb) in [sorted(l) for l in loops] and all((min(vb[i], vb[(i + 1) % len(vb)]), max(vb[i], vb[(i + 1) % len(vb)])) in bset for i in range(len(vb)))
+            except Exception:
+                good = False
+            if not good:
+                ctx.violation("cycle", "extract_border_cycle", "default_start_not_a_border_loop", "without a starting point the result is not one complete border loop")
     # interior starting point must be rejected
     interior = sorted(set(range(len(V))) - ref.border_vertices)
     if interior and loops:
@@ -225,6 +238,24 @@ def _feature_oracle(ctx, V, F, declared, only_border, corner_order, flag_corners
                 undecided.add(i)
             elif d < thr:
                 want.add(i)
+    def expected(ob):
+        w, und = set(), set()
+        for i, e in enumerate(edges):
+            if e in ref.border_edges:
+                w.add(i)
+                continue
+            if ob:
+                continue
+            f1, f2 = ref.direct_face(*e), ref.direct_face(e[1], e[0])
+            d = float(np.dot(N[f1], N[f2]))
+            for thr, cond in ((0.5, True), (0.8, e in dset)):
+                if not cond:
+                    continue
+                if abs(d - thr) <= 1e-9:
+                    und.add(i)
+                elif d < thr:
+                    w.add(i)
+        return w, und
     ok, det = ctx.call("FeatureEdgeDetector", lambda: M.processing.FeatureEdgeDetector(only_border=only_border, flag_corners=flag_corners, corner_order=corner_order,
                                                                                        verbose=False), monitor="features")
     ok, _ = ctx.call("detect", det.detect, m, monitor="features")
@@ -234,6 +265,32 @@ def _feature_oracle(ctx, V, F, declared, only_border, corner_order, flag_corners
     except Exception:
         ctx.violation("features", tag, "malformed_result", "feature_edges is not a set of edge ids")
         return
+    # history: further detections on the SAME mesh object with other options (a new detector, then the first detector again)
+    for rep, ob in enumerate((not only_border, only_border)):
+        w2, und2 = expected(ob)
+        if rep == 0:
+            ok, det2 = ctx.call("FeatureEdgeDetector", lambda: M.processing.FeatureEdgeDetector(only_border=ob, flag_corners=flag_corners, corner_order=corner_order,
+                                                                                               verbose=False), monitor="features")
+        else:
+            det2 = det
+        ok, _ = ctx.call("detect_again_on_same_mesh", det2.detect, m, monitor="features")
+        ctx.obs("features", "redetect")
+        try:
+            g2 = {int(e) for e in det2.feature_edges}
+            gv2 = {int(v) for v in det2.feature_vertices}
+        except Exception:
+            ctx.violation("features", "redetect", "malformed_result", "feature_edges is not a set of edge ids")
+            return
+        wrong2 = (g2 ^ w2) - und2
+        if wrong2:
+            e = sorted(wrong2)[0]
+            ctx.violation("features", "redetect", ("missing" if e in w2 else "spurious") + "_edge_after_previous_detection_on_same_mesh",
+                          "a detection run on a mesh that was already analysed (with other options) does not flag exactly the expected edges",
+                          edge=edges[e], only_border=ob, previous_only_border=(only_border if rep == 0 else (not only_border)), n_wrong=len(wrong2))
+            return
+        if gv2 != {v for e in g2 for v in edges[e]}:
+            ctx.violation("features", "redetect", "feature_vertices_inconsistent_after_previous_detection", "feature_vertices are not the end points of the feature edges on a re-run")
+            return
     wrong = (got ^ want) - undecided
     if wrong:
         e = sorted(wrong)[0]
